@@ -32,6 +32,7 @@ func foreignEED() error {
 func TestMain(m *testing.M) {
 	vh.Rule("rapid: histories of 1..4 responses on one channel; each with 0..6 EED packages (info / non-info) and 0..3 ENVCHANGE packages of 0..3 members (all four types, PACKSIZE with legal sizes) at any statement boundary (info EED and ENVCHANGE also between rows), any packetisation (so special packages are parsed, rolled back and re-parsed), 0..3 message hooks and 0..3 environment hooks registered before or between responses, and a consumer that either reads package by package right after every packet (ordering) or uses NextPackageUntil with a callback that fails at package k (started after the response has arrived, or polling with wait=false from its own goroutine while the packets arrive). One global event log (hook calls and consumer receipts with sequence numbers). Oracle: every hook gets every non-info EED exactly once, equal, in arrival order, in registration order, before the consumer gets any later package; info EEDs and ENVCHANGE never delivered, info EEDs never hooked; every member reported once to every env hook with (type, old, new); PacketSize() = last announced size; a failing callback's error matches the callback error and, if EEDs preceded, is an *EEDError carrying exactly those EEDs followed by nothing but later messages of the same response (also when the callback's own error wraps an *EEDError of an earlier exchange). Non-trivial: >= 1 EED or member and a cut inside or right after a special package; distinct by the history")
 	vh.Assume("'all messages received so far' is read as 'delivered before the failing package' (EEDs drained afterwards may or may not be included); hooks registered while a response is in flight are not generated; PACKSIZE values are decimal numbers in 256..65535")
+	vh.Rule("also: Info.DebugLogPackages is on in a quarter of the cases (every package is printed while it is sent / received)")
 	vh.QuietLog()
 	vh.Main(m, "C11")
 }
